@@ -34,6 +34,12 @@ Theorem C26_reposmap_roundtrip : forall l : list (N * rentry),
 Proof. intros l H. split; [exact (dec_repos_enc l H) | exact dec_repos_enc_nil]. Qed.
 Print Assumptions C26_reposmap_roundtrip.
 
+(** version-1 encodings (no IndexTimeUnix), as written by older servers, still decode — with IndexTimeUnix = 0 *)
+Theorem C26_reposmap_v1_compat : forall l : list (N * rentry), wf_repos l ->
+  dec_repos (enc_repos_v1 l) = Ok (Some (map drop_time l)).
+Proof. exact dec_repos_enc_v1. Qed.
+Print Assumptions C26_reposmap_v1_compat.
+
 (** BranchesRepos: for ANY bitmap serialiser/deserialiser pair (roaring WriteTo / FromBuffer) that round-trips
     on the bitmaps of the value, the framing round-trips the whole list *)
 Theorem C26_branchesrepos_roundtrip : forall (T : Type) (ser : T -> bytes) (bm : bytes -> outcome T) (l : list (bytes * T)),
@@ -118,7 +124,9 @@ Example C26_ex_neg_len : dec_set [1;1;255;255;255;255;255;255;255;255;255;1;97;9
 Proof. vm_compute. reflexivity. Qed.
 Example C26_ex_uvarint : uvarint (put_uvarint 18446744073709551615 ++ [7]) = (18446744073709551615, 10%Z).
 Proof. vm_compute. reflexivity. Qed.
-(** the old decoder on the hostile 10-byte input of DESIGN §6: count 2^63-1 accepted, 2^63-1 map slots requested
-    (the loop itself cannot be run here) — compare C26_ex_hostile for the repaired decoder *)
+(** the old decoder on the 3-byte input 01 e8 07 (count 1000, nothing behind it): 1000 iterations over an exhausted
+    buffer and NO error (the set {""} is returned) — compare C26_ex_hostile for the repaired decoder *)
 Example C26_ex_old_small : osteps (old_dec_set [1;232;7]) = 1002 /\ oerr (old_dec_set [1;232;7]) = false.
 Proof. vm_compute. split; reflexivity. Qed.
+Example C26_ex_v1 : dec_repos (enc_repos_v1 [(7, (true, 99%Z, [([97], [98])]))]) = Ok (Some [(7, (true, 0%Z, [([97], [98])]))]).
+Proof. vm_compute. reflexivity. Qed.
